@@ -376,5 +376,138 @@ theorem java_eqi_c_CSb_FluorShell (hN : inI32 (T.NE_Photo Z.toNat)) (hg : LGaps 
   · jeqi_auto
 end fluorline2
 
+theorem jrd_dynC (name : String) (NS Npz : Nat → Int) (U : Nat → Vec ℝ) (E : Nat → Nat → Vec ℝ) (i : Int) (h0 : 0 ≤ i) (h1 : i < 121) :
+    jrd name (some (jdynC NS Npz U E)) i = .ok (if NS i.toNat ≤ 0 then none else
+      some ⟨NS i.toNat, fun j => if 0 < Npz i.toNat ∧ (0.0 : ℝ) < (U i.toNat).get j then some ⟨Npz i.toNat, (E i.toNat j).get⟩ else none⟩) := by
+  unfold jdynC; exact jrd_vec name _ _ i h0 h1
+
+theorem ite_some_eq_jvec {β : Type} (n : Int) (v : Vec β) :
+    (if 0 < n then some (⟨n, v.get⟩ : Vec β) else none) = jvec n v := by
+  unfold jvec; split_ifs <;> first | rfl | omega
+
+section cpp
+variable (T : Tables ℝ) (Z m : Int) (hZ : inI32 Z) (hm : inI32 m) (pz : ℝ) (s : Slot) (hs : s.isFull = false)
+include hZ hm hs
+
+/-- `ComptonProfile_Partial`.  `hU`: occupation numbers are not negative (Java keeps a profile only for `UOCCUP > 0`, the C test is `== 0`) -/
+theorem java_eq_c_ComptonProfile_Partial (hN : inI32 (T.Npz_ComptonProfiles Z.toNat))
+    (hlenU : (T.UOCCUP_ComptonProfiles Z.toNat).len = T.NShells_ComptonProfiles Z.toNat)
+    (hU : 0 ≤ (T.UOCCUP_ComptonProfiles Z.toNat).get m.toNat) :
+    JRel (JGen.ComptonProfile_Partial (JTables.ofC T) Z m pz) (Gen.ComptonProfile_Partial T Z m pz s) s := by
+  jeq_start JGen.ComptonProfile_Partial Gen.ComptonProfile_Partial
+  by_cases hz : Z < 1 ∨ Z > 120
+  · jeq_auto
+  simp (disch := omega) only [jrd_dynC]
+  jeq_simp
+  simp only [jrd_jvec, rdv_def, hlenU]
+  by_cases hns : T.NShells_ComptonProfiles Z.toNat < 1
+  · jeq_auto
+  by_cases hsh : m ≥ T.NShells_ComptonProfiles Z.toNat ∨ m < 0
+  · jeq_auto
+  have hns' : ¬ T.NShells_ComptonProfiles Z.toNat ≤ 0 := by omega
+  have hin : 0 ≤ m ∧ m < T.NShells_ComptonProfiles Z.toNat := by omega
+  simp only [hns, hsh, hns', hin, and_self, ↓reduceIte, jbind_ok, bind_ok, jpure_eq_ok, pure_eq_ok, decide_eq_true_eq, deq_real, zero_lit, jrd_some]
+  by_cases hu0 : (T.UOCCUP_ComptonProfiles Z.toNat).get m.toNat = 0
+  · jeq_auto
+  have hupos : (0 : ℝ) < (T.UOCCUP_ComptonProfiles Z.toNat).get m.toNat := lt_of_le_of_ne hU (Ne.symm hu0)
+  simp only [hu0, hupos, ↓reduceIte, and_true]
+  simp only [ite_some_eq_jvec]
+  by_cases h29 : m < 29
+  · simp (disch := omega) only [rd2_ok, bind_ok]
+    rcases (jsplint_rel_vec (JTables.ofC T) (T.pz_ComptonProfiles Z.toNat) (T.Partial_ComptonProfiles Z.toNat m.toNat)
+      (T.Partial_ComptonProfiles2 Z.toNat m.toNat) (T.Npz_ComptonProfiles Z.toNat) hN (Real.log (pz + 1.0)) s hs).cases
+      with ⟨y, hc, hj⟩ | ⟨e, hc, hj⟩ | ⟨a, b, hc, hj⟩ | ⟨a, hc⟩ <;> jeq_auto
+  · have : ¬ ((0 : Int) ≤ Z ∧ Z < (121 : Nat) ∧ 0 ≤ m ∧ m < (29 : Nat)) := by omega
+    simp only [rd2, this, ↓reduceIte, bind_error, throw_eq_error]
+    jeq_auto
+end cpp
+
+section phototot
+variable (T : Tables ℝ) (Z : Int) (hZ : inI32 Z) (E : ℝ) (s : Slot) (hs : s.isFull = false)
+include hZ
+
+/-- the Kissel sub-shell tables of element `Z` are well formed, and the Q shells (no row in `EdgeEnergy_arr`, W1) carry no electrons -/
+structure KAllOk (T : Tables ℝ) (Z : Int) : Prop where
+  vec : ∀ k : Int, 0 ≤ k → k < 31 → KVecOk T Z k
+  q : ∀ k : Int, 28 ≤ k → k < 31 → T.Electron_Config_Kissel Z.toNat k.toNat ≤ 1.0e-6
+
+include hs
+theorem java_eq_c_CSb_Photo_Total (hk : KAllOk T Z) :
+    JRel (JGen.CSb_Photo_Total (JTables.ofC T) Z E) (Gen.CSb_Photo_Total T Z E s) s := by
+  jeq_start JGen.CSb_Photo_Total Gen.CSb_Photo_Total
+  by_cases hz : Z < 1 ∨ Z > 120
+  · jeq_auto
+  by_cases hE : E ≤ 0
+  · jeq_auto
+  jeq_simp
+  by_cases hne : T.NE_Photo_Total_Kissel Z.toNat < 0
+  · jeq_auto
+  simp only [hne, ↓reduceIte]
+  apply JRel.loop_then (fun r : ℝ => 0 ≤ r) (le_refl _)
+  · intro i rv h0 h1 hrv
+    have hi32 : inI32 i := by unfold inI32 INT_MIN INT_MAX; omega
+    simp (disch := omega) only [wrapI_eq, jrd_flat2, rd2_ok, jbind_ok, bind_ok, jpure_eq_ok, pure_eq_ok, jbind_ret, bind_ret]
+    by_cases hc : (10e-7 : ℝ) < T.Electron_Config_Kissel Z.toNat i.toNat
+    · simp only [hc, ↓reduceIte]
+      have hq : i < 28 ∨ T.Electron_Config_Kissel Z.toNat i.toNat < 1.0e-6 := by
+        by_cases h28 : i < 28
+        · exact Or.inl h28
+        · exact absurd (hk.q i (by omega) h1) (not_le.mpr hc)
+      have hv := hk.vec i h0 h1
+      have hpos := java_pos_CSb_Photo_Partial T Z i (by unfold inI32 INT_MIN INT_MAX; omega) hi32 E
+      have hcp : (0:ℝ) < T.Electron_Config_Kissel Z.toNat i.toNat := lt_trans (by norm_num) hc
+      have hinv : ∀ st', jtry (JGen.CSb_Photo_Partial (JTables.ofC T) Z i E >>= fun r_5 => Except.ok (rv + r_5 * T.Electron_Config_Kissel Z.toNat i.toNat)) (Except.ok rv) = Except.ok st' → 0 ≤ st' := by
+        intro st' h
+        rcases hj : JGen.CSb_Photo_Partial (JTables.ofC T) Z i E with e | v
+        · rw [hj] at h
+          cases e <;> simp only [jbind_error, jtry_iae, jtry_nf, jtry] at h <;> cases h
+          exact hrv
+        · rw [hj] at h
+          simp only [jbind_ok, jtry_ok] at h
+          cases h
+          have hvp := hpos v hj
+          positivity
+      refine ⟨?_, hinv⟩
+      rcases (java_eq_c_CSb_Photo_Partial T Z i (by unfold inI32 INT_MIN INT_MAX; omega) hi32 E Slot.null rfl hv.1 hv.2.1 hv.2.2 hq).cases
+        with ⟨v, hcc, hj⟩ | ⟨e, hcc, hj⟩ | ⟨a, b, hcc, hj⟩ | ⟨a, hcc⟩
+      · simp only [hcc, hj, jbind_ok, bind_ok, jtry_ok]; exact StepRel.ok
+      · simp only [hcc, hj, jbind_error, bind_ok, jtry_iae, withErr_null]; exact StepRel.ok_eq (by norm_num)
+      · simp only [hcc, hj, jbind_error, bind_error, jtry_nf]; exact StepRel.nf
+      · simp only [hcc, bind_error]; exact StepRel.ub
+    · simp only [hc, ↓reduceIte]
+      exact ⟨StepRel.ok, fun st' h => by cases h; exact hrv⟩
+  · intro st hst
+    jeq_auto
+
+omit hs in
+theorem java_pos_CSb_Photo_Total : JPos (JGen.CSb_Photo_Total (JTables.ofC T) Z E) := by
+  unfold JGen.CSb_Photo_Total
+  dsimp only
+  repeat' (first
+    | with_reducible exact JPos.error | with_reducible exact JPos.throw
+    | (with_reducible apply JPos.bind; intro _)
+    | (split_ifs)
+    | ((with_reducible apply JPos.of_pos) <;> linarith)
+    | (simp only [jpure_eq_ok]))
+omit hs in
+theorem java_rng_CSb_Photo_Total {v : ℝ} (h : JGen.CSb_Photo_Total (JTables.ofC T) Z E = .ok v) : ¬(Z < 1 ∨ Z > 120) := by
+  intro hz
+  unfold JGen.CSb_Photo_Total at h
+  jeq_normJ
+  simp only [hz, ↓reduceIte, jpure_eq_ok, jbind_ok, jthrow_eq_error] at h
+  cases h
+
+theorem java_eq_c_CS_Photo_Total (hk : KAllOk T Z) :
+    JRel (JGen.CS_Photo_Total (JTables.ofC T) Z E) (Gen.CS_Photo_Total T Z E s) s := by
+  jeq_start JGen.CS_Photo_Total Gen.CS_Photo_Total
+  rcases (java_eq_c_CSb_Photo_Total T Z hZ E s hs hk).cases with ⟨v, hc, hj⟩ | ⟨e, hc, hj⟩ | ⟨a, b, hc, hj⟩ | ⟨a, hc⟩
+  · have hne := (java_pos_CSb_Photo_Total T Z hZ E).ne hj
+    have hr := java_rng_CSb_Photo_Total T Z hZ E hj
+    jeq_auto
+  · jeq_auto
+  · jeq_auto
+  · jeq_auto
+end phototot
+
 end C19
 end Xrl
